@@ -28,7 +28,11 @@ KINDS = ["Dist", "Static", "Switch", "OrElse", "Mix", "Dimap", "Vmap"]
 
 def cfg_fn(rng, ctx):
     depth = 2 if ctx.quick() else int(rng.choice([2, 2, 3]))
-    return gen.Cfg(depth=depth, kinds=KINDS, root=["Switch", "Switch", "OrElse", "Mix"], hostile_idx=True)
+    kinds = KINDS
+    mixed = rng.random() < 0.12
+    if mixed:
+        kinds = KINDS + ["Scan", "Iterate", "IterateFinal", "Repeat"]
+    return gen.Cfg(depth=depth, kinds=kinds, root=["Switch", "Switch", "OrElse", "Mix"], hostile_idx=True, mixed_lead=mixed)
 
 
 def nontrivial(case, hist):
@@ -50,6 +54,18 @@ PLAN = _drive.Plan(
     exc_is_violation=True,
 )
 
+
+
+def sig_fn(case, hist, op, issue, sig):
+    # one mechanism, one signature: every branch of a switch receives the whole constraint /
+    # choice map, and a vector-combinator branch indexes all of its leaves, including a sibling
+    # branch's scalar leaf ("Too many indices: 0-dimensional array indexed with 1 regular index")
+    if gen.mixed_lead(case.node) and "Too many indices" in issue.detail:
+        return "C13|op=any|on=Switch|field=raises|cond=vector-branch-indexes-sibling-scalar-leaf"
+    return None
+
+
+PLAN.sig_fn = sig_fn
 
 
 def run(ctx):
